@@ -198,6 +198,47 @@ theorem decompose_fresh (h : Heap) (a : Nat) (t : Tmpl) :
     (∀ c ∈ (gateDecomposeH h a t).2, h.ops.length ≤ c.1) :=
   gateDecomposeH_fresh h a t
 
+/-- **merging (the optimiser's `Gate.merge` / `Channel.merge`) never modifies its operands**: for every
+heap and every pair of operation objects, all objects and parameter lists that existed before the call are
+unchanged afterwards, and a merged operation is a newly allocated object with a newly allocated parameter
+list (so writing its first parameter cannot reach the user's operations). -/
+theorem merge_fresh (h : Heap) (a b : Nat) :
+    ((∀ x < h.ops.length, (gateMergeH false h a b).1.ops[x]? = h.ops[x]?) ∧
+     (∀ j < h.pls.length, (gateMergeH false h a b).1.pls[j]? = h.pls[j]?) ∧
+     (∀ x, (gateMergeH false h a b).2 = .merged x →
+        x = h.ops.length ∧ ((gateMergeH false h a b).1.ops[x]?).map (·.pl) = some h.pls.length)) ∧
+    ((∀ x < h.ops.length, (channelMergeH false h a b).1.ops[x]? = h.ops[x]?) ∧
+     (∀ j < h.pls.length, (channelMergeH false h a b).1.pls[j]? = h.pls[j]?) ∧
+     (∀ x, (channelMergeH false h a b).2 = .merged x →
+        x = h.ops.length ∧ ((channelMergeH false h a b).1.ops[x]?).map (·.pl) = some h.pls.length)) :=
+  ⟨⟨(extends_get (gateMergeH_extends h a b)).1, (extends_get (gateMergeH_extends h a b)).2,
+     fun x hx => gateMergeH_new h a b x hx⟩,
+   ⟨(extends_get (channelMergeH_extends h a b)).1, (extends_get (channelMergeH_extends h a b)).2,
+     fun x hx => channelMergeH_new h a b x hx⟩⟩
+
+/-- two loss channels 1/2 and 1/4 and two squeezers r = 1/2, r = 1/4 (one daggered) -/
+def mergeHeap : Heap :=
+  ⟨[⟨"LossChannel", 0, false⟩, ⟨"LossChannel", 1, false⟩, ⟨"Sgate", 2, false⟩, ⟨"Sgate", 3, true⟩],
+   [[.num ⟨1/2, 0⟩], [.num ⟨1/4, 0⟩], [.num ⟨1/2, 0⟩, .num {}], [.num ⟨1/4, 0⟩, .num {}]]⟩
+
+/-- the shallow-copy-then-assign variant (`temp = copy.copy(self); temp.p[0] = T`, seeded change C09-a1)
+overwrites the first parameter of the user's first channel (1/2 becomes 1/8) — the reason `merge_fresh`
+insists on a new parameter list -/
+theorem merge_inplace_counterexample :
+    (channelMergeH true mergeHeap 0 1).1.pls[0]? = some [.num ⟨1/8, 0⟩] ∧ mergeHeap.pls[0]? = some [.num ⟨1/2, 0⟩] ∧
+    (gateMergeH true mergeHeap 2 3).1.pls[2]? ≠ mergeHeap.pls[2]? := by
+  decide +kernel
+
+/-- merge: the code's variant gives a new channel 1/8 with its own list, a new squeezer r = 1/4 (the daggered
+operand counts negatively), leaves the four operands alone; equal-and-opposite operands cancel; different
+families fail -/
+example : (channelMergeH false mergeHeap 0 1).2 = .merged 4 ∧
+    (channelMergeH false mergeHeap 0 1).1.pls = mergeHeap.pls ++ [[.num ⟨1/8, 0⟩]] ∧
+    (gateMergeH false mergeHeap 2 3).1.pls[4]? = some [.num ⟨1/4, 0⟩, .num {}] ∧
+    (gateMergeH false mergeHeap 3 3).2 = .merged 4 ∧ (gateMergeH false mergeHeap 2 0).2 = .failure ∧
+    (gateMergeH false ⟨[⟨"Rgate", 0, false⟩, ⟨"Rgate", 0, true⟩], [[.sym (.meas 1) 2 {}]]⟩ 0 1).2 = .identity := by
+  decide +kernel
+
 /-! ### the inputs on which the concatenation statement used to fail -/
 
 def gaussianCp : Compiler :=
